@@ -156,3 +156,42 @@ class StreamSink:
         if o[self.p + "valid"]:
             self.bytes.append(o[self.p + "payload"])
         return False
+
+
+def hs_handshake(h, *, chirp_pairs=4, pair_cycles=170):
+    """ Host side of a bus reset with high-speed detection, for a V2 (60 MHz) device that is not speed-restricted:
+        SE0 until the device has finished its chirp K (2 ms = 120 000 cycles), then `chirp_pairs` host K-J pairs, then the
+        high-speed idle state (SE0).  Returns when the device shows high-speed operation (speed HIGH, normal operating mode,
+        high-speed termination).  The device's chirp is removed from the host's record of device transmissions.
+        Needs the bench outputs speed / op_mode / term_select (engines.usb2_device provides them). """
+    h.set_pins(line_state=0)
+    seen_chirp = False
+    for _ in range(135000):
+        yield
+        if h.sample["tx_valid"]:
+            seen_chirp = True
+        elif seen_chirp:
+            break
+    else:
+        raise RuntimeError("hs_handshake: the device never finished a chirp after the bus reset")
+    yield from h.idle(30)
+    for _ in range(chirp_pairs):
+        h.set_pins(line_state=0b10)          # K
+        yield from h.idle(pair_cycles)
+        h.set_pins(line_state=0b01)          # J
+        yield from h.idle(pair_cycles)
+    h.set_pins(line_state=0)
+    h.line_idle = 0
+    for _ in range(3000):
+        yield
+        o = h.sample
+        if o["speed"] == 0 and o["op_mode"] == 0 and o["term_select"] == 0:
+            break
+    else:
+        raise RuntimeError("hs_handshake: the device did not enter high-speed operation after a complete chirp handshake")
+    yield from h.idle(150)
+    del h.tx_packets[:]
+    h.events[:] = [e for e in h.events if e[0] != "tx"]
+
+
+HS_HANDSHAKE_CYCLES = 140000
